@@ -84,6 +84,7 @@ impl Scenario for CommissionCrash {
                 dup_permille: 50,
                 hold_permille: 50,
                 hold_max_ms: 300,
+                ..Default::default()
             }
         } else {
             UniformNet {
@@ -130,6 +131,8 @@ impl Scenario for CommissionCrash {
             kv_faults,
             crashes,
             restart_after_us: 300 * MS,
+            cancels: vec![],
+            calm_at_us: None,
         };
         let run = drive_full(seed, cfg);
         let mut out = Outcome::default();
